@@ -58,6 +58,7 @@ class Contract:
         self.file = None
         self.nolog = False
         self.rename = None
+        self.closures = {}
         self.rename_calls = {}
 
 
@@ -113,6 +114,10 @@ def parse_contracts(path):
             last = None
         elif word == 'attr':
             cur.attrs.append(rest)
+            last = None
+        elif word == 'closure':
+            mm = re.match(r'(\d+)\s*:\s*(.*)$', rest)
+            cur.closures[int(mm.group(1))] = mm.group(2)
             last = None
         elif word == 'rename':
             cur.rename = rest.strip()
@@ -258,7 +263,7 @@ def apply_rewrites(body, rel, base_line, log):
     def r1(m):
         note('R1', m.start(), m.group(0))
         return '.%s(|x_r1| %s(x_r1))' % (m.group(1), m.group(2))
-    body = re.sub(r'\.(map|map_err)\(\s*((?:[A-Za-z_][A-Za-z0-9_]*::)+[A-Z][A-Za-z0-9_]*)\s*\)', r1, body)
+    body = re.sub(r'\.(map|map_err|and_then)\(\s*((?:[A-Za-z_][A-Za-z0-9_]*::)+[A-Za-z_][A-Za-z0-9_]*)\s*\)', r1, body)
 
     # R2: closure parameter `_`
     def r2(m):
@@ -333,6 +338,113 @@ def insert_ghost_args(body, callees, arg, rel, base_line, log):
             log.append({'rule': 'G1', 'where': '%s:%d' % (rel, base_line + body.count('\n', 0, t[2])), 'text': t[1] + '(..)'})
     for pos, ins in sorted(edits, reverse=True):
         body = body[:pos] + ins + body[pos:]
+    return body
+
+
+_fnret = None
+
+
+def fn_ret_table():
+    global _fnret
+    if _fnret is None:
+        _fnret = {}
+        with open(os.path.join(VERIF, 'contracts', 'closure_types.txt')) as f:
+            for ln in f:
+                ln = ln.split('#')[0].strip()
+                if ln:
+                    k, v = ln.split(None, 1)
+                    _fnret[k] = v.strip()
+    return _fnret
+
+
+def pure_args(a):
+    """arguments usable verbatim in a spec expression: identifiers, literals, unary !/-, enum constructor applications"""
+    if any(x in a for x in ('{', '?', '.await', '|')):
+        return False
+    for m in re.finditer(r'([A-Za-z_][A-Za-z0-9_]*)?\s*\(', a):
+        name = m.group(1)
+        if not name or not name[0].isupper():
+            return False
+    if re.search(r'\.\s*[a-z_][A-Za-z0-9_]*\s*\(', a):
+        return False
+    return True
+
+
+def annotate_closures(body, overrides, rel, base_line, log):
+    """G2: give closures a ghost `-> (o: T) ensures ...` annotation (Verus treats an un-annotated closure as
+    opaque).  Only closures in argument position whose body is a single constructor application or a single
+    call of a function listed in closure_types.txt are annotated automatically; `overrides` (from the contract,
+    keyed by closure ordinal) take precedence.  The executable tokens of the closure are unchanged."""
+    toks = rsscan.tokenize(body)
+    sig = rsscan.sig(toks)
+    edits = []
+    n = 0
+    p = 0
+    while p < len(sig):
+        t = toks[sig[p]]
+        prev = toks[sig[p - 1]] if p > 0 else None
+        is_start = t[0] == 'punct' and t[1] in ('|', '||') and prev is not None and prev[0] == 'punct' and prev[1] in ('(', ',')
+        if not is_start:
+            p += 1
+            continue
+        n += 1
+        if t[1] == '||':
+            params = ''
+            q = p + 1
+        else:
+            q = p + 1
+            while q < len(sig) and not (toks[sig[q]][0] == 'punct' and toks[sig[q]][1] == '|'):
+                q += 1
+            params = body[t[3]:toks[sig[q]][2]].strip()
+            q += 1
+        if q >= len(sig):
+            break
+        if toks[sig[q]][1] == '->':
+            p = q
+            continue  # already annotated in the source
+        # closure body: a block, or an expression up to ',' / ')' at depth 0
+        bstart = toks[sig[q]][2]
+        if toks[sig[q]][1] == '{':
+            e = rsscan.match_close(toks, sig[q])
+            bend = toks[e][3]
+            inner = body[toks[sig[q]][3]:toks[e][2]].strip()
+            nxt = q
+            while sig[nxt] <= e:
+                nxt += 1
+        else:
+            r = q
+            while r < len(sig):
+                tt = toks[sig[r]]
+                if tt[0] == 'punct' and tt[1] in ('(', '[', '{'):
+                    e = rsscan.match_close(toks, sig[r])
+                    while sig[r] < e:
+                        r += 1
+                elif tt[0] == 'punct' and tt[1] in (')', ',', ']', '}', ';'):
+                    break
+                r += 1
+            bend = toks[sig[r - 1]][3]
+            inner = body[bstart:bend].strip()
+            nxt = r
+        ann = None
+        if n in overrides:
+            ann = overrides[n]
+        else:
+            m = re.match(r'^((?:[A-Za-z_][A-Za-z0-9_]*::)+)([A-Za-z_][A-Za-z0-9_]*)\s*\((.*)\)$', inner, re.S)
+            if m and pure_args(m.group(3)):
+                path = m.group(1) + m.group(2)
+                args = m.group(3).strip()
+                if m.group(2)[0].isupper() and path not in fn_ret_table():
+                    ty = m.group(1)[:-2]
+                    ann = '-> (o_c%d: %s) ensures o_c%d == %s' % (n, ty, n, inner)
+                elif path in fn_ret_table():
+                    tup = '(%s,)' % args if args else '()'
+                    ann = '-> (o_c%d: %s) ensures call_ensures(%s, %s, o_c%d)' % (n, fn_ret_table()[path], path, tup, n)
+        if ann is not None:
+            edits.append((bstart, bend, '%s { %s }' % (ann, inner)))
+            log.append({'rule': 'G2', 'where': '%s:%d' % (rel, base_line + body.count('\n', 0, t[2])), 'text': 'closure %d: %s' % (n, ann)})
+        p = nxt
+    for s_, e_, r_ in sorted(edits, reverse=True):
+        body = body[:s_] + r_ + body[e_:]
     return body
 
 
@@ -536,6 +648,7 @@ class Assembler:
             marks[ph] = text
             b = b[:off] + ph + b[off:]
         b = apply_rewrites(b, c.src, base_line, log)
+        b = annotate_closures(b, c.closures, c.src, base_line, log)
         if c.rename_calls:
             b = rename_calls(b, c.rename_calls, c.src, base_line, log)
         if c.ghost_calls:
